@@ -79,7 +79,7 @@ def plan(tier, seed):
     return {
         "nshards": 16,
         "params": p,
-        "hard_timeout_s": 420 if tier == "quick" else 2400,
+        "hard_timeout_s": 1200 if tier == "quick" else 4800,
     }
 
 
